@@ -238,11 +238,11 @@ static void mc4_index_lemma(int which)
     REACH("size");
   }
 }
-//@harness h_MC4_lemma_L1 enforce=none props=C15 min_obl=931 reach=1 timeout=200 loops=0
+//@harness h_MC4_lemma_L1 enforce=none props=C15 min_obl=1041 reach=1 timeout=200 loops=0
 void h_MC4_lemma_L1(void) { mc4_index_lemma(1); }
-//@harness h_MC4_lemma_L2 enforce=none props=C15 min_obl=931 reach=1 timeout=200 loops=0
+//@harness h_MC4_lemma_L2 enforce=none props=C15 min_obl=1041 reach=1 timeout=200 loops=0
 void h_MC4_lemma_L2(void) { mc4_index_lemma(2); }
-//@harness h_MC4_lemma_L3 enforce=none props=C15 min_obl=931 reach=2 timeout=200 loops=0
+//@harness h_MC4_lemma_L3 enforce=none props=C15 min_obl=1041 reach=2 timeout=200 loops=0
 void h_MC4_lemma_L3(void) { mc4_index_lemma(3); }
 
 /* ======================= Vertex4::value =======================
@@ -351,7 +351,7 @@ __CPROVER_ensures(self->Chi4.id == Chi4->id && self->G13.id == G13->id && self->
 __CPROVER_ensures(D_SAME(self->beta, Chi4->beta) && self->Status == Constructed)
 __CPROVER_ensures(self->Storage.NumberOfMatsubaras == 0 && self->Storage.pSource == (void *)0 && self->Storage.Values.size == 0 && self->Storage.FermionicIndexOffset.size == 0)
 //@end
-//@harness h_Vertex4_ctor enforce=Vertex4_init5 props=C15 min_obl=10 reach=1 timeout=120
+//@harness h_Vertex4_ctor enforce=Vertex4_init5 props=C15 min_obl=253 reach=1 timeout=120
 void h_Vertex4_ctor(void)
 {
   struct Vertex4 *v; struct TwoParticleGF *chi; struct GreensFunction *g13, *g24, *g14, *g23;
